@@ -25,7 +25,7 @@ Proof.
   apply safe_bind; [apply open_key_ring_safe|]. intro o.
   destruct (fst o) as [u|e|]; try apply safe_done.
   destruct (current_key (snd o)) as [s|e|]; try apply IH.
-  destruct (key_with_seqnum (h_data (snd o)) s); [apply IH|apply safe_done].
+  destruct (key_with_seqnum (h_data (snd o)) s) as [kc|]; [destruct (N.eqb (k_state kc) KSW_DESTROYED); apply IH|apply safe_done].
 Qed.
 
 Lemma list_keys_safe : safe list_keys.
